@@ -232,10 +232,7 @@ pub fn execute(prop: &str, sc: &MtScript, opts: &ExecOpts) -> Outcome {
                         out.violate(prop, "scenario-timeout", "multi-topic", "the multi-topic exchange did not finish".into());
                     }
                 }
-                Some(Err(e)) => {
-                    out.inconclusive = true;
-                    out.log.push(format!("setup error: {e:#}"));
-                }
+                Some(Err(e)) => setup_failed(&mut out, prop, "multi-topic", &sc.net, e),
                 Some(Ok(lists)) if !lost => {
                     for (si, (ti, got)) in lists.iter().enumerate() {
                         let t = &sc.topics[*ti];
